@@ -456,8 +456,10 @@ PROPS["C18"] = {
     "technique": "property-based generation of files x exhaustive syscall-level fault and kill injection with strace, oracle on file bytes/mode/exit status (rapid)",
     "tests": [
         {"name": "TestProp", "quick": {"shards": 8, "checks": 4}, "thorough": {"shards": 16, "checks": 60}},
+        {"name": "TestMulti", "quick": {"shards": 4, "checks": 150}, "thorough": {"shards": 8, "checks": 2000}},
     ],
-    "rule": "cases: (file content, mode); per case all kill points and error injections are enumerated (counts in coverage.extra: "
+    "rule": "cases: (file content, mode), and invocations with 2-4 file arguments of mixed kinds (TestMulti: -c exits 0 exactly if all are formatted, "
+            "-w leaves each file original or formatted); per single-file case all kill points and error injections are enumerated (counts in coverage.extra: "
             "strace_runs, kill_points, injected_errors, faults_before_rename_completed). Non-trivial = the file parses (so -w really "
             "rewrites it under faults); distinct by (mode, content).",
     "exhaustive_part": "every file-system call of the un-faulted run that touches the file's directory x {SIGKILL, ENOSPC, EIO, EACCES}",
